@@ -44,7 +44,12 @@ def run_shared(chk, tier, own):
             sys_cases = [c for c in indx.gen_file_cases(tier, core.SEED + 3) if len(c[2]) <= 3][:: 9][: (10 if tier == "quick" else 120)]
             nstates = 0
             for arity, common, ents in sys_cases:
-                final, states = indx.syscall_disk_states(arity, common, ents, str(wd), str(core.VERIF))
+                try:
+                    final, states = indx.syscall_disk_states(arity, common, ents, str(wd), str(core.VERIF))
+                except RuntimeError as e:
+                    # a save that fails is judged by C10/C11, not here
+                    chk.note("other-property=C10 traced save did not complete: %s" % str(e)[:160])
+                    continue
                 tid += 1
                 ev = indx.file_event(IndxIO, tid, arity, common, ents, str(wd), cuts=False)
                 seen = set()
